@@ -319,11 +319,17 @@ func (ex *Exec) visitInstr(fr *frame, instr ssa.Instruction) continuation {
 	case *ssa.MakeSlice:
 		n := ex.concreteInt(fr.get(instr.Len), "make len")
 		cp := ex.concreteInt(fr.get(instr.Cap), "make cap")
-		if int64(n) < 0 || int64(n) > 1<<24 {
+		// beyond 2^47 elements the Go runtime itself refuses (maxAlloc);
+		// between 2^24 and that the allocation is real but out of the
+		// interpreter's reach: a bound, not a panic
+		if int64(n) < 0 || int64(n) > 1<<47 {
 			ex.panicRuntime("makeslice: len out of range")
 		}
-		if int64(cp) < int64(n) || int64(cp) > 1<<24 {
+		if int64(cp) < int64(n) || int64(cp) > 1<<47 {
 			ex.panicRuntime("makeslice: cap out of range")
+		}
+		if int64(cp) > 1<<24 {
+			panic(pathAbort{abBound, "make of more than 2^24 elements"})
 		}
 		s := make([]value, cp)
 		tElt := instr.Type().Underlying().(*types.Slice).Elem()
